@@ -206,12 +206,15 @@ class Ctx(object):
         sets = {IDX[c]: enc(KIND[c], v) for c, v in zip(set_cols, args)}
         # the optimistic criteria as generated: [attr, 'null'] for `col IS NULL`, [attr, encoded value] for `col = ?`
         crit = []; rest = args[len(set_cols) + 1:]; k = 0
-        for col, op in re.findall(r'"(\w+)" (= \?|IS NULL)', m.group(2))[1:]:
-            if op == 'IS NULL': crit.append([IDX[col], 'null'])
+        for line in re.split(r'\s+AND\s+', m.group(2))[1:]:
+            col = re.search(r'"(\w+)"', line).group(1)
+            n = line.count('?')
+            if 'IS NULL' in line: crit.append([IDX[col], 'null'])
             else:
-                v = rest[k] if k < len(rest) else 'missing'; k += 1
-                crit.append([IDX[col], 'eq-none' if v is None else enc(KIND[col], v) if v != 'missing' else v])
-        ev = {'stmt': 'UPDATE', 'o': o, 'set': sets, 'where': sorted(IDX[c] for c in where_cols[1:]), 'crit': crit, 'rowcount': cursor.rowcount}
+                vals = rest[k:k + n]; k += n
+                if not vals or any(v != vals[0] for v in vals): crit.append([IDX[col], 'bad-params'])
+                else: crit.append([IDX[col], 'eq-none' if vals[0] is None else enc(KIND[col], vals[0])])
+        ev = {'stmt': 'UPDATE', 'o': o, 'set': sets, 'where': [c[0] for c in crit], 'crit': crit, 'rowcount': cursor.rowcount}
         self.events.append(ev)
         if cursor.rowcount == 0:
             self.suppress = True    # the diagnostic SELECT of find_updated_attributes belongs to the same step
